@@ -15,7 +15,7 @@ import blas1  # noqa: one BLAS thread (oversubscribed machines: 9 s per small de
 from common import Case, Failure, f2x, flist, clist, parse_flist, np_rng
 
 PID = 'C08'
-LEAN_TARGETS = ['Nitime.Props.C08', 'Nitime.Props.C08Cache']
+LEAN_TARGETS = ['Nitime.Props.C08', 'Nitime.Props.C08Cache', 'Nitime.Props.C08Layout']
 RULE = ('scenarios from one PRNG state: 2..5 coupled channels (common cause + sinusoids + noise; amplitudes 1e-9..1e4), gains 1e-9..1e6 of both signs, explicit n_overlap=0, lengths 64..256 (quick) / ..2048 '
         '(thorough); Welch with NFFT of both parities, explicit/default overlap, hanning/array windows; multitaper (fixed, adaptive) and '
         'periodogram through get_spectra; CoherenceAnalyzer and MTCoherenceAnalyzer; bands lb/ub on and off the grid; every scenario '
@@ -23,7 +23,11 @@ RULE = ('scenarios from one PRNG state: 2..5 coupled channels (common cause + si
         'degenerate spectra (single segment for partial coherence, relative spectral floor < 1e-7) are skipped and counted; per-channel amplitudes 1e-12..1e12; '
         'session 3: getter read HISTORIES on all four coherence analyzers (seeded orders, everything handed out kept and re-inspected, judged by the bounds / symmetry '
         'oracle), the cache path (cache_fft + cache_to_coherency, Sparse / Seed analyzers with 1..3 seeds, pair lists with repeats / reversed / self pairs) against the '
-        'function-level coherency, int16/int32/int64/uint8/float32/big-endian/read-only/Fortran/strided representations of the data')
+        'function-level coherency, int16/int32/int64/uint8/float32/big-endian/read-only/Fortran/strided representations of the data; '
+        'round 4: a FIXED method x attribute matrix in every run (welch NFFT/n_overlap 16/8, 32/0, 33/11, 64/default; multi_taper_csd fixed and adaptive; periodogram_csd; '
+        'channel counts rotated by the seed, >= 3 for the multitaper entries), every CoherenceAnalyzer attribute against the function-level API on the same data and method, '
+        'coherence_partial of BOTH APIs for every method judged on the spectra the analyzer itself exposes (numpy.linalg.inv), lopsided exact gains +-2^{-30,0,30} per channel '
+        'on Coherence / Sparse / Seed / MT analyzers and the function level; periodogram_csd partial coherence is degenerate (rank-1 spectral matrix, coherence = 1) and skipped')
 ASSUMPTIONS = ['real-valued input, 0 <= n_overlap < NFFT, Fs > 0, real window with non-zero energy',
                'spectra are non-degenerate: cases whose auto-spectra fall below 1e-7 of their maximum, or whose partial-coherence '
                'denominators fall below 1e-6, are skipped and counted (the theorems carry the corresponding hypotheses f_xx != 0 etc.)',
@@ -252,6 +256,29 @@ def make_scenarios(rng, tier, seed):
         out.append({'kind': 'mta', 'adaptive': True if filt else rng.random() < 0.5, 'data': data.tolist(), 'hseed': rng.randint(0, 10 ** 6),
                     'nw': rng.choice([None, None, 2, 3, 2.5]), 'alpha': rng.choice([0.05, 0.1, 0.01]),
                     'Fs': rng.choice([1.0, 2 * math.pi, 10.0])})
+    out += method_matrix(nr, seed, big)
+    return out
+
+
+# every spectral method CoherenceAnalyzer accepts, in a FIXED order, in every run (not drawn): each of them goes through every
+# observable of both APIs (cases_of / judge); the multitaper entries always have >= 3 channels (partial coherence)
+METHOD_MATRIX = [('welch', {'NFFT': 16, 'nov': 8}), ('welch', {'NFFT': 32, 'nov': 0}), ('welch', {'NFFT': 33, 'nov': 11}), ('welch', {'NFFT': 64, 'nov': None}),
+                 ('csd', 'multi_taper_csd'), ('csd', 'multi_taper_csd_adaptive'), ('csd', 'periodogram_csd')]
+
+
+def method_matrix(nr, seed, big):
+    out = []
+    for e, (kind, opt) in enumerate(METHOD_MATRIX):
+        multitaper = kind == 'csd' and opt.startswith('multi_taper')
+        nch = 3 + (seed + e) % 3 if (multitaper or e == 0) else 2 + (seed + e) % 4
+        n = 256 if (kind == 'welch' and opt['NFFT'] == 64) else (192 if big else 128)
+        base = {'data': gen_data(nr, nch, n).tolist(), 'Fs': [1.0, 2 * math.pi, 10.0][(seed + e) % 3], 'hseed': 7919 * (seed + 1) + e, 'matrix': True,
+                'band_u': [((seed * 7 + e * 3 + q * 5) % 17) / 17.0 for q in range(8)]}
+        if kind == 'welch':
+            base.update({'kind': 'welch', 'NFFT': opt['NFFT'], 'nov': opt['nov'], 'win': 'hann', 'winvals': None})
+        else:
+            base.update({'kind': 'csd', 'method': opt})
+        out.append(base)
     return out
 
 
@@ -336,7 +363,7 @@ def impl_results(sc):
     R['delay'] = run(lambda: A.coherency_phase_delay(X, lb, ub, m()))
     R['cohbavg'] = run(lambda: A.coherence_bavg(X, lb, ub, m()))
     R['cybavg'] = run(lambda: A.coherency_bavg(X, lb, ub, m()))
-    if X.shape[0] >= 3 and sc['kind'] == 'welch':
+    if X.shape[0] >= 3:
         R['partial'] = run(lambda: A.coherence_partial(X[:-1], X[-1], m()))
 
     def an():
@@ -344,7 +371,7 @@ def impl_results(sc):
         T = ts.TimeSeries(X, sampling_rate=sc['Fs'])
         C = CoherenceAnalyzer(T, method=mm)
         out = {}
-        for name in ('coherency', 'coherence', 'phase', 'delay', 'frequencies') + (('coherence_partial',) if X.shape[0] >= 3 else ()):
+        for name in ('coherency', 'coherence', 'phase', 'delay', 'frequencies', 'spectrum') + (('coherence_partial',) if X.shape[0] >= 3 else ()):
             out[name] = run(lambda: np.array(getattr(C, name)))
         return out
     R['an'] = run(an)
@@ -601,10 +628,10 @@ def cases_of(sc, R, si):
         if isinstance(r, str) or np.all(np.isfinite(np.abs(r))):
             add(what, r if isinstance(r, str) else conv(r), '%s/func/%s' % (pre, what), 'f',
                 cmp=cmp_vec if (what == 'cohbavg' or wrap_safe) else cmp_abs_c)
-    if 'partial' in R and sc['kind'] == 'welch':
+    if 'partial' in R:
         r = R['partial']
-        nov = sc['NFFT'] // 2 if sc['nov'] is None else sc['nov']
-        if nseg_of(n, sc['NFFT'], nov) >= 3 and partial_cond(fxy):
+        nov = None if sc['kind'] != 'welch' else (sc['NFFT'] // 2 if sc['nov'] is None else sc['nov'])
+        if (nov is None or nseg_of(n, sc['NFFT'], nov) >= 3) and partial_cond(fxy):
             add('partial', r if isinstance(r, str) else ok_r(r[1]), pre + '/func/partial', 'f')
     a = R.get('an')
     if isinstance(a, dict):
@@ -626,9 +653,25 @@ def cases_of(sc, R, si):
                 r = a['coherence_partial']
                 nov = sc.get('nov')
                 ns = 3 if sc['kind'] != 'welch' else nseg_of(n, sc['NFFT'], sc['NFFT'] // 2 if nov is None else nov)
-                if sc['kind'] == 'welch' and ns >= 3 and partial_cond(fxy, allk=True):
+                if ns >= 3 and partial_cond(fxy, allk=True):
                     add('apartial', r if isinstance(r, str) else ok_r(r), pre + '/analyzer/partial', 'a')
+        # the analyzer's partial coherence from the array the analyzer ITSELF exposes, every row of it (half-filled for welch,
+        # full for the multitaper / periodogram estimators): model = analyzerPartial csdOf (Model/C08Layout.lean)
+        Sa, r = a.get('spectrum'), a.get('coherence_partial')
+        if own_spectrum_ok(sc, Sa, n) and r is not None:
+            line = 'C08 specfull apartial %d %d %s' % (nch, Sa.shape[-1], ' '.join(clist(Sa[i, j]) for i in range(nch) for j in range(nch)))
+            out.append(Case(line, r if isinstance(r, str) else ok_r(r), pre + '/analyzer/partial-from-own-spectrum', cmp=cmp_vec, meta={'sc': si, 'obs': 'apartial'}))
     return out
+
+
+def own_spectrum_ok(sc, Sa, n):
+    """the spectral matrix an analyzer exposes is well enough conditioned for the partial-coherence clause (>= 3 channels,
+    >= 3 windows for welch with the ANALYZER's overlap default 32, auto-spectra above the relative floor, |R|^2 <= 1 - 1e-6)"""
+    if not isinstance(Sa, np.ndarray) or Sa.ndim != 3 or Sa.shape[0] < 3 or Sa.shape[0] != Sa.shape[1]:
+        return False
+    if sc['kind'] == 'welch' and nseg_of(n, sc['NFFT'], 32 if sc['nov'] is None else sc['nov']) < 3:
+        return False
+    return cond_ok(Sa) and partial_cond(Sa, allk=True)
 
 
 def win_tok(sc):
@@ -753,6 +796,7 @@ def judge(sc, R, gain_rng=None):
         if not np.allclose(c, np.transpose(c, (1, 0, 2)), rtol=0, atol=1e-9):
             bad('mt-analyzer/coherence/not-symmetric', 'MT coherence matrix is not symmetric', 'mta')
         d = np.array([c[i, i] for i in range(nch)])
+        pow2_gain_checks(sc, R, 'mt-analyzer', bad)
         mt_reuse_checks(sc, bad)
         mt_getter_history(sc, bad)
         if np.abs(d - 1).max() > 1e-9:
@@ -817,9 +861,11 @@ def judge(sc, R, gain_rng=None):
             if np.abs(cb - np.conj(cb.T)).max() > 1e-9:
                 bad(pre + '/func/cybavg/not-hermitian', 'band-averaged coherency not Hermitian', 'cybavg')
     # partial coherence against the inverse of the 3-channel spectral matrix
-    if 'partial' in R and not isinstance(R['partial'], str) and sc['kind'] == 'welch':
-        nov = sc['NFFT'] // 2 if sc['nov'] is None else sc['nov']
-        if nseg_of(n, sc['NFFT'], nov) >= 3 and partial_cond(fxy):
+    if 'partial' in R and isinstance(R['partial'], str):
+        bad(pre + '/func/partial/raises', 'coherence_partial raised %s on valid input' % R['partial'], 'partial')
+    if 'partial' in R and not isinstance(R['partial'], str):
+        nov = None if sc['kind'] != 'welch' else (sc['NFFT'] // 2 if sc['nov'] is None else sc['nov'])
+        if (nov is None or nseg_of(n, sc['NFFT'], nov) >= 3) and partial_cond(fxy):
             pc = np.real(np.asarray(R['partial'][1]))
             r = nch - 1
             worst, above = 0.0, 0.0
@@ -836,6 +882,11 @@ def judge(sc, R, gain_rng=None):
                 bad(pre + '/func/partial/%sne-inverse' % sig, 'coherence_partial differs from |G_xy|^2/(G_xx G_yy), G = inv(S_3x3), by %.3g' % worst, 'partial')
             if above > 1 + tol:
                 bad(pre + '/func/partial/%sabove-1' % sig, 'coherence_partial reaches %.4g > 1' % above, 'partial')
+            if pc.min() < -tol:
+                bad(pre + '/func/partial/below-0', 'coherence_partial has value %.4g < 0' % pc.min(), 'partial')
+            dg = np.array([pc[i, i] for i in range(nch - 1)])
+            if np.abs(dg - 1).max() > 1e-7:
+                bad(pre + '/func/partial/self-not-1', 'coherence_partial[i,i] differs from 1 by %.3g' % np.abs(dg - 1).max(), 'partial')
     a = R.get('an')
     if isinstance(a, str):
         if not (sc['kind'] == 'welch' and sc['nov'] is None and sc['NFFT'] <= 32):
@@ -847,9 +898,11 @@ def judge(sc, R, gain_rng=None):
         if not isinstance(a['delay'], str):
             anti(a['delay'], pre + '/analyzer/delay', 'adelay')
         same_seg = not (sc['kind'] == 'welch' and sc['nov'] is None and sc['NFFT'] // 2 != 32)
-        if 'coherence_partial' in a and not isinstance(a['coherence_partial'], str) and sc['kind'] == 'welch' and same_seg:
-            nov = sc['NFFT'] // 2 if sc['nov'] is None else sc['nov']
-            if nseg_of(n, sc['NFFT'], nov) >= 3 and partial_cond(fxy, allk=True):
+        analyzer_vs_function(sc, R, a, pre, same_seg, bad)
+        analyzer_partial_checks(sc, a, pre, bad)
+        if 'coherence_partial' in a and not isinstance(a['coherence_partial'], str) and same_seg:
+            nov = None if sc['kind'] != 'welch' else (sc['NFFT'] // 2 if sc['nov'] is None else sc['nov'])
+            if (nov is None or nseg_of(n, sc['NFFT'], nov) >= 3) and partial_cond(fxy, allk=True):
                 pc = np.asarray(a['coherence_partial'])
                 worst, above = 0.0, 0.0
                 for i in range(nch):
@@ -865,6 +918,7 @@ def judge(sc, R, gain_rng=None):
                     bad(pre + '/analyzer/partial/%sne-inverse' % sig, 'CoherenceAnalyzer.coherence_partial differs from the inverse-matrix value by %.3g' % worst, 'apartial')
                 if above > 1 + tol:
                     bad(pre + '/analyzer/partial/%sabove-1' % sig, 'CoherenceAnalyzer.coherence_partial reaches %.4g > 1' % above, 'apartial')
+    pow2_gain_checks(sc, R, pre, bad)
     # analyzer reuse / repeated calls / in-place overwrite / memory layouts / getter histories / cache path
     reuse_checks(sc, bad)
     getter_history_checks(sc, bad)
@@ -877,7 +931,7 @@ def judge(sc, R, gain_rng=None):
              ('phase', lambda X_, m_: A_.coherency_phase_spectrum(X_, m_)),
              ('cohbavg', lambda X_, m_: A_.coherence_bavg(X_, lb_, ub_, m_)),
              ('delay', lambda X_, m_: A_.coherency_phase_delay(X_, lb_, ub_, m_))]
-    if nch >= 3 and sc['kind'] == 'welch':
+    if nch >= 3 and (sc['kind'] == 'welch' or sc['method'] != 'periodogram_csd'):
         calls.append(('partial', lambda X_, m_: A_.coherence_partial(X_[:-1], X_[-1], m_)))
     identity_checks(pre, X, calls, mk_, bad)
     dtype_checks(pre, X, calls, mk_, bad, sc.get('hseed', 0))
@@ -905,6 +959,194 @@ def judge(sc, R, gain_rng=None):
             if np.abs(cy2 - sgn * cy).max() > 1e-7:
                 bad(pre + '/func/gain/coherency-sign', 'coherency did not transform by sign(a) under gain %g' % g, 'coherency')
     return fails
+
+
+# ------------------------------------------------------------------ analyzer attributes for every spectral method
+def analyzer_method(sc):
+    """the method dict as the ANALYZER completes it (welch: n_overlap defaults to the module constant 32)"""
+    if sc['kind'] == 'welch':
+        m = method_of(sc)
+        m.setdefault('n_overlap', 32)
+        return m
+    return csd_method_of(sc)
+
+
+def analyzer_vs_function(sc, R, a, pre, same_seg, bad):
+    """every CoherenceAnalyzer attribute against the function-level API on the same data and method"""
+    if not same_seg or isinstance(R.get('spectra'), str):
+        return
+    f, fxy = R['spectra']
+    fxy = np.asarray(fxy)
+    nch = fxy.shape[0]
+    iu = np.triu_indices(nch)
+    pairs = [('frequencies', a.get('frequencies'), np.asarray(f), 'afreqs')]
+    Sa = a.get('spectrum')
+    if isinstance(Sa, np.ndarray) and Sa.shape == fxy.shape:
+        pairs.append(('spectrum', Sa[iu], fxy[iu], 'an'))            # (the half get_spectra documents as filled)
+    for nm, key in (('coherency', 'coherency'), ('coherence', 'coherence')):
+        if not isinstance(R[key], str):
+            pairs.append((nm, a.get(nm), np.asarray(R[key][1]), nm))
+    for nm, got, want, obs in pairs:
+        if isinstance(got, str):
+            bad('%s/analyzer/%s/raises' % (pre, nm), 'CoherenceAnalyzer.%s raised %s (the function-level API does not)' % (nm, got), obs)
+        elif got is not None and not same(got, want):
+            bad('%s/analyzer/%s/ne-function-level' % (pre, nm), 'CoherenceAnalyzer.%s differs from the function-level API on the same data and method (%s)' % (nm, maxdiff(got, want)), obs)
+    # phases on the circle / delays where the cross-spectrum is above the rounding floor
+    S = herm(fxy)
+    dgl = np.real(S[np.arange(nch), np.arange(nch)])
+    with np.errstate(all='ignore'):
+        strong = np.abs(S) > 1e-6 * np.sqrt(np.abs(dgl[:, None, :] * dgl[None, :, :]))
+    strong &= ~np.eye(nch, dtype=bool)[:, :, None]
+    if not isinstance(R['phase'], str) and isinstance(a.get('phase'), np.ndarray) and a['phase'].shape == np.asarray(R['phase'][1]).shape:
+        d = np.abs(np.angle(np.exp(1j * (a['phase'] - np.asarray(R['phase'][1])))))
+        if strong.any() and d[strong].max() > 1e-6:
+            bad(pre + '/analyzer/phase/ne-function-level', 'CoherenceAnalyzer.phase differs from coherency_phase_spectrum by %.3g rad' % d[strong].max(), 'aphase')
+    dl = R.get('delay')
+    if dl is not None and not isinstance(dl, str) and isinstance(a.get('delay'), np.ndarray):
+        fd, p = np.asarray(dl[0]), np.asarray(dl[1])
+        f = np.asarray(f)
+        if len(fd) and p.shape[-1] == len(fd):
+            li = int(np.argmin(np.abs(f - fd[0])))
+            if li + len(fd) <= len(f) and np.allclose(f[li:li + len(fd)], fd, rtol=1e-12, atol=0):
+                ad = a['delay'][:, :, li:li + len(fd)]
+                with np.errstate(all='ignore'):
+                    d = np.abs(np.angle(np.exp(1j * (ad - p) * 2 * np.pi * fd)))
+                ok = strong[:, :, li:li + len(fd)] & np.isfinite(d)
+                if ok.any() and d[ok].max() > 1e-6:
+                    bad(pre + '/analyzer/delay/ne-function-level', 'CoherenceAnalyzer.delay differs from coherency_phase_delay (%.3g rad at the bin frequency)' % d[ok].max(), 'adelay')
+
+
+def analyzer_partial_checks(sc, a, pre, bad):
+    """CoherenceAnalyzer.coherence_partial for EVERY spectral method, judged on the spectra the analyzer itself exposes: in [0, 1],
+    1 for a channel with itself, symmetric, = |G_ij|^2/(G_ii G_jj) with G = numpy.linalg.inv of the 3-channel matrix, and = the
+    function-level coherence_partial on the same data and method"""
+    pc, Sa = a.get('coherence_partial'), a.get('spectrum')
+    X = np.array(sc['data'], dtype=float)
+    nch, n = X.shape
+    if pc is None:
+        return
+    if isinstance(pc, str):
+        if not isinstance(Sa, str):
+            bad(pre + '/analyzer/partial/raises', 'CoherenceAnalyzer.coherence_partial raised ' + pc, 'apartial')
+        return
+    if not own_spectrum_ok(sc, Sa, n):
+        return
+    pc = np.real(np.asarray(pc))
+    S = herm(Sa)
+    k = '%s/analyzer/partial-own-spectrum' % pre
+    if not np.all(np.isfinite(pc)):
+        bad(k + '/not-finite', 'CoherenceAnalyzer.coherence_partial holds non-finite values on well-conditioned spectra', 'apartial')
+        return
+    worst, lo, hi, dg, asym = 0.0, 0.0, 0.0, 0.0, 0.0
+    for i in range(nch):
+        for j in range(nch):
+            for r in range(nch):
+                if r == i or r == j:
+                    continue
+                if i == j:
+                    dg = max(dg, np.abs(pc[i, i, r] - 1).max())
+                    continue
+                want = inv_partial(S[np.ix_([i, j, r], [i, j, r])])
+                worst = max(worst, np.abs(pc[i, j, r] - want).max())
+                lo, hi = min(lo, pc[i, j, r].min()), max(hi, pc[i, j, r].max())
+                asym = max(asym, np.abs(pc[i, j, r] - pc[j, i, r]).max())
+    if worst > 1e-7:
+        bad(k + '/ne-inverse', 'CoherenceAnalyzer.coherence_partial differs from |G_ij|^2/(G_ii G_jj), G = inv of the 3-channel matrix of the '
+            'analyzer\'s own .spectrum, by %.3g' % worst, 'apartial')
+    if hi > 1 + BOUND_TOL:
+        bad(k + '/above-1', 'CoherenceAnalyzer.coherence_partial reaches %.4g > 1' % hi, 'apartial')
+    if lo < -BOUND_TOL:
+        bad(k + '/below-0', 'CoherenceAnalyzer.coherence_partial has value %.4g < 0' % lo, 'apartial')
+    if dg > 1e-7:
+        bad(k + '/self-not-1', 'CoherenceAnalyzer.coherence_partial[i,i,r] differs from 1 by %.3g' % dg, 'apartial')
+    if asym > 1e-9:
+        bad(k + '/not-symmetric', 'CoherenceAnalyzer.coherence_partial[j,i,r] != [i,j,r] (max %.3g)' % asym, 'apartial')
+    A = tsa()
+    for r in sorted({nch - 1, 0}):
+        others = [c for c in range(nch) if c != r]
+        fl = run(lambda: A.coherence_partial(X[others], X[r], analyzer_method(sc))[1])
+        if isinstance(fl, str):
+            bad('%s/func/partial/raises' % pre, 'coherence_partial raised %s where the analyzer answers' % fl, 'apartial')
+            continue
+        got = pc[np.ix_(others, others, [r])][:, :, 0]
+        d = np.abs(got - np.real(fl)).max()
+        if not np.isfinite(d) or d > 1e-7:
+            bad(k + '/ne-function-level', 'CoherenceAnalyzer.coherence_partial[:, :, r] differs from coherence_partial(others, channel r) '
+                'on the same data and method by %.3g (r = %d)' % (d, r), 'apartial')
+
+
+def pow2_gains(sc, nch):
+    """lopsided exact gains: every channel times +-2^e, e in {-30, 0, 30}, not all equal"""
+    import random
+    r = random.Random('pow2/%d' % sc.get('hseed', 0))
+    es = [r.choice([-30, 0, 30]) for _ in range(nch)]
+    if len(set(es)) == 1:
+        es[r.randrange(nch)] = -30 if es[0] != -30 else 30
+    return np.array([(-1.0 if r.random() < 0.4 else 1.0) * 2.0 ** e for e in es])
+
+
+def pow2_gain_checks(sc, R, pre, bad):
+    """scale-free clauses under exact power-of-two gains that differ by 2^30 / 2^60 between channels: analyzer attributes and
+    function-level routines must be unchanged (coherency: times the signs), for every spectral method and analyzer"""
+    import nitime.timeseries as ts
+    from nitime.analysis import CoherenceAnalyzer, SparseCoherenceAnalyzer, SeedCoherenceAnalyzer
+    A = tsa()
+    X = np.array(sc['data'], dtype=float)
+    nch, n = X.shape
+    g = pow2_gains(sc, nch)
+    X2 = X * g[:, None]
+    sg = np.sign(g)
+    sgn = (sg[:, None] * sg[None, :])[:, :, None]
+    tag = 'gains ' + ','.join('%s2^%d' % ('-' if v < 0 else '', int(round(math.log2(abs(v))))) for v in g)
+
+    def cmp(key, obs, v1, v2, mult=None, tol=1e-7):
+        if isinstance(v1, str) or isinstance(v2, str):
+            if isinstance(v1, str) != isinstance(v2, str):
+                bad(key + '/raises', '%s: %s vs %s' % (tag, v1 if isinstance(v1, str) else 'ok', v2 if isinstance(v2, str) else 'ok'), obs)
+            return
+        v1, v2 = np.asarray(v1), np.asarray(v2)
+        if mult is not None and v1.shape == v2.shape:
+            v1 = v1 * mult
+        m = np.isfinite(v1) & np.isfinite(v2) if v1.shape == v2.shape else None
+        if m is None or not np.array_equal(np.isfinite(v1), np.isfinite(v2)) or (m.any() and np.abs(v1[m] - v2[m]).max() > tol):
+            bad(key + '/changed', 'changed (%s) under %s' % (maxdiff(v1, v2) if m is not None else 'shape', tag), obs)
+
+    if sc['kind'] == 'mta':
+        c1, c2 = run(lambda: np.array(mt_make(sc, X).coherence)), run(lambda: np.array(mt_make(sc, X2).coherence))
+        cmp('mt-analyzer/gain-pow2/coherence', 'mta', c1, c2)
+        return
+    m = lambda: analyzer_method(sc)
+    names = ('coherence', 'coherency') + (('coherence_partial',) if nch >= 3 else ())
+
+    def an(Y):
+        C = CoherenceAnalyzer(ts.TimeSeries(Y, sampling_rate=sc['Fs']), method=m())
+        return {nm: run(lambda: np.array(getattr(C, nm))) for nm in names + ('spectrum',)}
+    a1, a2 = run(lambda: an(X)), run(lambda: an(X2))
+    cond = isinstance(a1, dict) and nch >= 3 and own_spectrum_ok(sc, a1['spectrum'], n)
+    if isinstance(a1, dict) and isinstance(a2, dict):
+        cmp(pre + '/analyzer/gain-pow2/coherence', 'coherence', a1['coherence'], a2['coherence'])
+        cmp(pre + '/analyzer/gain-pow2/coherency', 'coherency', a1['coherency'], a2['coherency'], sgn)
+        if cond:
+            cmp(pre + '/analyzer/gain-pow2/partial', 'apartial', a1['coherence_partial'], a2['coherence_partial'])
+    f1 = run(lambda: (A.coherence(X, m())[1], A.coherency(X, m())[1]))
+    f2 = run(lambda: (A.coherence(X2, m())[1], A.coherency(X2, m())[1]))
+    if not isinstance(f1, str) and not isinstance(f2, str):
+        cmp(pre + '/func/gain-pow2/coherence', 'coherence', f1[0], f2[0])
+        cmp(pre + '/func/gain-pow2/coherency', 'coherency', f1[1], f2[1], sgn)
+    if cond:
+        p1 = run(lambda: A.coherence_partial(X[:-1], X[-1], m())[1])
+        p2 = run(lambda: A.coherence_partial(X2[:-1], X2[-1], m())[1])
+        cmp(pre + '/func/gain-pow2/partial', 'partial', p1, p2)
+    if sc['kind'] == 'welch' and sc['NFFT'] <= n and isinstance(a1, dict):
+        ij = [(i, j) for i in range(nch) for j in range(nch)]
+        s1 = run(lambda: np.array(SparseCoherenceAnalyzer(ts.TimeSeries(X, sampling_rate=sc['Fs']), ij=ij, method=m()).coherence))
+        s2 = run(lambda: np.array(SparseCoherenceAnalyzer(ts.TimeSeries(X2, sampling_rate=sc['Fs']), ij=ij, method=m()).coherence))
+        cmp(pre + '/sparse-analyzer/gain-pow2/coherence', 'an', s1, s2)
+        k = max(1, nch // 2)
+
+        def seed(Y):
+            return np.array(SeedCoherenceAnalyzer(ts.TimeSeries(Y[:k], sampling_rate=sc['Fs']), ts.TimeSeries(Y[k:], sampling_rate=sc['Fs']), method=m()).coherence)
+        cmp(pre + '/seed-analyzer/gain-pow2/coherence', 'an', run(lambda: seed(X)), run(lambda: seed(X2)))
 
 
 # ------------------------------------------------------------------ analyzer reuse, repeated calls, in-place overwrite, layouts
